@@ -22,6 +22,9 @@ func rulesC01(c *Ctx) {
 	// enclosing policy admits the attempt": the wrapper summary of every policy executor
 	c.Rule("retry-wrapper")
 	retryLoop(c, map[string]bool{"loop": true, "returns": true})
+	// what the retry policy hands to the policy outside it (the handled outcome, the last outcome, ExceededError) is
+	// what that policy then handles: the decision table of its OnFailure is part of the nesting
+	retryDecision(c, map[string]bool{"decision": true})
 	c04Gate(c)
 	c04Pairing(c)
 	c05Executor(c)
